@@ -478,6 +478,12 @@ def run_impl(case: dict) -> Tuple[List[str], List[List[str]], List[Optional[int]
     for op in case["ops"]:
         k = op[0]
         cd_files, cd_folders = _corrupt_deleted(impl.fs) if impl.fs is not None else (set(), set())
+        if k == "rfolder" and impl.fs is not None:  # measured: a restore requested while an earlier restore is still counting down
+            for g in impl.fs.deleted_folders.values():
+                if g.name == op[1] and g.restore_countdown > 0:
+                    key = "folder:restore-requested-on-a-deleted-folder-whose-countdown-is-frozen"
+                    stats[key] = stats.get(key, 0) + 1
+                    break
         delta = _tally_delta(impl, op) if k.startswith("api_") and k != "api_create" else None
         try:
             status = impl.apply(op)
@@ -899,3 +905,8 @@ def gen_cfg_case(rng: Rng) -> dict:
         op = gen_op(rng, folders, names[:2])
         ops.append(op)
     return {"surface": "cfg", "restore_duration": None, "ops": ops}
+
+
+def folder_restore_alphabet() -> List[list]:
+    """Bounded-exhaustive family R (after the fixed prefix `create fa/a`): delete / restore a folder against its own restore countdown."""
+    return [["dfolder", "fa"], ["rfolder", "fa"], ["fverb", "fa", "restore"], ["tick"]]
